@@ -87,6 +87,11 @@ CHECKS = {
    text="Pattern lists (mostly 2+ patterns) and paths derived from the patterns (including prefix/suffix extensions) are compared with a reference matcher "
         "written from the statement; generated file trees check glob(), os.glob and the ignore list end to end.",
    note="Unescaped [ and ], newlines and invalid UTF-8 are outside the domain; empty list is only asked about non-empty paths."),
+ "C18": dict(engine="projsim", level="exploration", section="5 C18", technique="model-based property testing (rapid): event-grammar and output-line oracle over generated histories with parallel targets, plus a reference model of the line writer under generated chunkings",
+   text="The real line writer is driven by generated Write/Flush rounds against a split-by-newline model; generated projects with printing and chunk-writing "
+        "bodies, failing bodies, missing and cyclic dependencies, dry runs and repeated runs of one loaded project are built and each label's event sequence, "
+        "printed lines, ordering against dependencies and RunDone are checked.",
+   note="The CLI renderers (package main) are not executed; interleavings of parallel targets are whatever the real scheduler produces on 16 cores."),
  "C19": dict(engine="pure", level="exploration", section="5 C19", technique="property-based testing (rapid): write/load round-trip and re-write byte equality",
    text="Generated configurations with hostile strings and keys are written, loaded, compared, re-written (byte equality) and pushed through a get/tidy-style rewrite.",
    note="Strings are valid UTF-8; requirement paths clean, versions canonical semver (the property's stated domain)."),
